@@ -15,6 +15,21 @@ CLAIMS = {
             'Trusted: rustc front end (types, MIR calls), the allow-lists in sfa/e1_types.py, purity of num::Float ops on f32/f64. '
             'Generic children are assumed to be views of this crate (all of which are checked).',
             'DESIGN.md §5 C17', 'E1'),
+    'C01': ('proof', 'static analysis: path counting + def-use over type-checked structured IR (forwarding protocol)',
+            'Proof of the forwarding protocol for each of the 38 views: every path of update() forwards the raw value to each '
+            'input child exactly once before reading it, uses the raw value for nothing else, writes no state before/without the '
+            'gate, leaves the None path inert; combinators report Some only when all children do; children are used only through '
+            'View::update/View::last. By parametricity over the opaque child type this implies the chaining statement for all '
+            'pairs, triples and deeper chains, all N and all input streams (the argument is compositional).',
+            'Trusted: rustc front end (resolved callees, binding ids), the recognised gate idioms (let-else / if-let / match on the child\'s last()). '
+            'Bit-identity additionally needs the inner view to be deterministic (C17).',
+            'DESIGN.md §5 C01', 'E2'),
+    'C14': ('proof', 'static analysis: gated-SSA value graph of last∘update matched against an operator spec table',
+            'Proof over the symbolic value graph of last∘update of the nine combinators: the reported term is exactly the specified '
+            'operator of the children\'s current outputs, Some exactly when all children report, with no dependence on pre-update '
+            'state. Terms are symbolic in every input, so the verdict covers all children, inputs and steps.',
+            'Trusted: rustc front end, sfa/vg.py (value-graph construction), the spec table in sfa/e_c14.py. `>=` vs `>` in clips is not policed.',
+            'DESIGN.md §5 C14', 'E2/VG'),
 }
 
 NOT_APPLICABLE = {
@@ -58,6 +73,8 @@ def main():
         'engines': [
             {'name': 'driver', 'path': 'driver/', 'serves_properties': sorted(CLAIMS), 'kind_free_text': 'rustc_private fact extractor: items, structured IR from type-checked HIR, MIR census of panic edges and calls'},
             {'name': 'E1', 'path': 'sfa/e1_types.py', 'serves_properties': ['C17', 'C14', 'C18'], 'kind_free_text': 'type/item allow-list walk, globals, unsafe, callee closure'},
+            {'name': 'E2', 'path': 'sfa/e2_protocol.py', 'serves_properties': ['C01', 'C08'], 'kind_free_text': 'path counting / def-use protocol rules over structured IR'},
+            {'name': 'VG', 'path': 'sfa/vg.py', 'serves_properties': ['C14', 'C02', 'C03', 'C04', 'C05', 'C10', 'C12', 'C13'], 'kind_free_text': 'gated-SSA value graph (terms, phi, fold) with event log; rule engines match and type the terms'},
         ],
         'checks': checks,
         'notes': 'Static analysis only: every check extracts facts from /repo\'s current working tree (cargo +nightly check with the driver) and evaluates rules over them; no view is ever built or run. Genuine defects found were repaired by fix: commits in /repo (see known_findings.json).',
